@@ -164,4 +164,6 @@ MUTANTS = [
  {"name": "c09-await-before-checking-send", "props": ["C09"], "rules": ["C09.R8"],
   "edits": [("ractor/src/rpc.rs", "        sent?;\n        Ok(if let Some(duration) = timeout_option {", "        let __r = if let Some(duration) = timeout_option {"),
             ("ractor/src/rpc.rs", "                Err(_send_err) => CallResult::SenderError,\n            }\n        })\n    }\n}", "                Err(_send_err) => CallResult::SenderError,\n            }\n        };\n        sent?;\n        Ok(__r)\n    }\n}")]},
+ {"name": "silent-asyncstd-config-does-not-build", "props": ["C03"], "expect": "silent",
+  "edits": [("ractor/src/concurrency/async_std_primitives.rs", "pub fn interval(dur: Duration) -> Interval {", "pub fn interval(dur: Duration) -> Interval { let _x: u8 = \"not a number\";")]},
 ]
